@@ -571,7 +571,7 @@ impl Property for C07 {
         let cfg = PartCfg {
             name: "ledger",
             rule: "random interleavings (10-70 ops) of deposits, withdrawals, controller- and token-level transfer/approve/transferFrom by 5 pkscripts, 2 signers and a forwarding contract, adversarial mint/burn/owner-only/ownership calls on controller and tokens, 7 tickers in several spellings (ASCII case, CJK, cased non-ASCII, empty), amounts from {0,1,7,50,1000,123456789,2^255,2^256-1}, mining, commits and reorgs; independent ledger model compared at every finalise, after every reorg and at the end (brc20_balance in a rotating spelling, balanceOf of every holder, totalSupply = sum = deposits - withdrawals). Non-trivial = >= 1 failed withdrawal/transfer and >= 1 adversarial attempt and >= 2 spellings of one ticker",
-            cases: ctx.tier.pick(1600, 30000),
+            cases: ctx.tier.pick(3000, 40_000),
             max_shrink_iters: ctx.tier.pick(300, 1200),
         };
         explore(ctx, ev, &cfg, strategy, check)
